@@ -139,7 +139,7 @@ pub fn build(c: &Case, corp: &corpus::Corpus) -> Option<Sched> {
         // a second go while the first search is still running (not protocol-conformant; its own
         // fate is not judged, but the stop that follows must still end the running search)
         if go == "go infinite" && (trig_sel + act_sel) % 5 == 0 {
-            action = "go".to_string();
+            action = if go_sel % 2 == 0 { "go" } else { "isready+go" }.to_string();
         }
         rounds.push(Round { position: position_command(&game.start, &game.moves_uci()), fen: game.cur.to_fen(), go, trigger, action });
     }
@@ -284,6 +284,19 @@ fn run_sched_once(ctx: &Ctx, s: &Sched, rep: &mut Report) -> Result<(), Violatio
                     }
                 }
             }
+            "isready+go" => {
+                // the command loop answers isready while the search runs, THEN a second go arrives
+                // (not conformant; its fate is not judged), then stop: the running search must end
+                eng.send("isready");
+                order.push("isready".into());
+                let _ = eng.wait_for(Duration::from_secs(3) + slack, |e| (e.stream == Stream::Out && e.line.trim() == "readyok") || e.eof);
+                eng.send("go depth 1");
+                order.push("go(second)".into());
+                optional_best += 1;
+                eng.send("stop");
+                stop_sent_at = Some(eng.now());
+                order.push("stop".into());
+            }
             "go" => {
                 eng.send("go depth 1");
                 order.push("go(second)".into());
@@ -369,7 +382,7 @@ fn run_sched_once(ctx: &Ctx, s: &Sched, rep: &mut Report) -> Result<(), Violatio
         if terminal {
             rep.class("round:finished-game(bestmove content not judged)");
         }
-        if r.action == "go" {
+        if r.action == "go" || r.action == "isready+go" {
             // if the engine queued the second go instead of refusing it, let it finish
             if let Some(e) = eng.wait_for(Duration::from_millis(300) + slack, |e| is_best(e) || e.eof) {
                 if is_best(&e) {
@@ -397,6 +410,24 @@ fn run_sched_once(ctx: &Ctx, s: &Sched, rep: &mut Report) -> Result<(), Violatio
         return Err(fail("readyok", format!("readyok/missing/end{sv}"), "no readyok at the end of the schedule".into(), &eng));
     }
     eng.settle(Duration::from_millis(20));
+    // every search has been answered or stopped: the engine must be idle now.  A search that is
+    // still running (a stop that reached the wrong search, a thread nobody owns any more) shows
+    // as CPU consumption and as info lines that keep coming.
+    {
+        let lines_before = eng.stdout_lines().len();
+        let c0 = eng.cpu_ms();
+        eng.settle(Duration::from_millis(400));
+        let c1 = eng.cpu_ms();
+        let busy = match (c0, c1) {
+            (Some(a), Some(b)) => b.saturating_sub(a),
+            _ => 0,
+        };
+        let late_lines = eng.stdout_lines().len() - lines_before;
+        if busy >= 250 {
+            return Err(fail("stop", "stop/search-still-running-at-the-end".into(), format!("every go had its bestmove and the last isready its readyok, yet the engine consumed {busy} ms of CPU in the following 400 ms ({late_lines} more output lines): a search is still running"), &eng));
+        }
+        rep.class("end-of-schedule:engine-idle");
+    }
     let n_best = eng.stdout_lines().iter().filter(|e| e.line.starts_with("bestmove")).count();
     let _ = seen_optional;
     if n_best < s.rounds.len() || n_best > s.rounds.len() + optional_best {
@@ -456,6 +487,8 @@ pub fn fixed_schedules() -> Vec<Sched> {
         Sched { window: "uci:spawned".into(), sleep_ms: 150, rounds: vec![rd("go infinite", "label:uci:spawned", "stop")] },
         // a second go while searching, then stop; the next conformant go must be accepted
         Sched { window: "search:iter1".into(), sleep_ms: 50, rounds: vec![rd("go infinite", "label:search:iter1", "go"), rd("go depth 2", "none", "none")] },
+        // isready answered while searching, then a second go, then stop: the first search must end
+        Sched { window: "search:iter1".into(), sleep_ms: 50, rounds: vec![rd("go infinite", "delay:50", "isready+go"), rd("go depth 2", "none", "none")] },
         // a forced move (one legal move) answered, the next go right after its bestmove while the
         // search thread is held before it exits; the same with a bare-kings draw
         Sched {
@@ -684,7 +717,7 @@ pub fn replay(ctx: &Ctx, case: &Value) -> Report {
 }
 
 pub const LEVEL: &str = "exploration";
-pub const RULE: &str = "schedules against the real engine binary built with the cfg(rce_verif) schedule points: one labelled point (search:enter, search:armed, search:iter1, search:pre_best, search:post_best, uci:spawned) holds its window open for 50/150/300 ms, all points are traced; 1..3 rounds of (position, go {infinite | movetime 300 | nodes N | depth 3 | clocks}, trigger {when a label is seen | when the bestmove is seen | plain delay 0/5/50 ms | none}, action {stop | isready | position | ucinewgame | none}); the GUI side stays protocol-conformant (a new go only after the previous bestmove). Occasionally the first go of a round is followed by a second go while the search still runs (its own fate is not judged; the stop after it must work) and a round may search a finished game (exactly one bestmove line, content not judged). Plus 10 fixed schedules for the interleavings the statement names, and stop storms: 60-round plans of (position incl. capture-saturated 5-9-queen constructions, go {infinite | movetime | nodes | clocks | depth 60}, stop after a generated delay of 0..30 ms) on one engine with no window forced, bestmove due within 2 s of each stop. Windows are 50-300 ms and, in a quarter of the schedules, 800 or 1500 ms (longer than any bounded wait an engine might apply to its previous search thread); one round in six searches a root whose search may take a shortcut (a single legal move, bare kings, a fifty-move clock at 99/100, a threefold repetition), and fixed schedules send the next go right after such a search's bestmove. Oracle: every go => exactly one bestmove, legal in the position current when that go was sent; after stop the bestmove arrives within 2 s + injected sleeps; every isready => readyok within 3 s + sleeps; no go of a conformant script is refused. Non-trivial = the realised trace shows a command sent directly after the forced window's label (i.e. inside the window); distinct by realised order of labels, commands and bestmoves.";
+pub const RULE: &str = "schedules against the real engine binary built with the cfg(rce_verif) schedule points: one labelled point (search:enter, search:armed, search:iter1, search:pre_best, search:post_best, uci:spawned) holds its window open for 50/150/300 ms, all points are traced; 1..3 rounds of (position, go {infinite | movetime 300 | nodes N | depth 3 | clocks}, trigger {when a label is seen | when the bestmove is seen | plain delay 0/5/50 ms | none}, action {stop | isready | position | ucinewgame | none}); the GUI side stays protocol-conformant (a new go only after the previous bestmove). Occasionally the first go of a round is followed by a second go while the search still runs (its own fate is not judged; the stop after it must work) and a round may search a finished game (exactly one bestmove line, content not judged). Plus 10 fixed schedules for the interleavings the statement names, and stop storms: 60-round plans of (position incl. capture-saturated 5-9-queen constructions, go {infinite | movetime | nodes | clocks | depth 60}, stop after a generated delay of 0..30 ms) on one engine with no window forced, bestmove due within 2 s of each stop. Windows are 50-300 ms and, in a quarter of the schedules, 800 or 1500 ms (longer than any bounded wait an engine might apply to its previous search thread); one round in six searches a root whose search may take a shortcut (a single legal move, bare kings, a fifty-move clock at 99/100, a threefold repetition), and fixed schedules send the next go right after such a search's bestmove. At the end of every schedule the engine must be idle (less than 250 ms of CPU in 400 ms): a search nobody can stop any more shows there. Oracle: every go => exactly one bestmove, legal in the position current when that go was sent; after stop the bestmove arrives within 2 s + injected sleeps; every isready => readyok within 3 s + sleeps; no go of a conformant script is refused. Non-trivial = the realised trace shows a command sent directly after the forced window's label (i.e. inside the window); distinct by realised order of labels, commands and bestmoves.";
 pub const ASSUMPTIONS: &[&str] = &[
     "the labelled schedule points are the events the property names; orders that need a window at an unlabelled point are not reached",
     "all deadlines include the injected sleeps and a missing answer is a failure under any timing, so forcing a window cannot create a false alarm",
